@@ -318,7 +318,9 @@ func c02Stability(c *vlib.Ctx, states, transitions *int64) {
 			}
 		}
 	}
-	results := vlib.Pool("c02stab", nil, 16, jobs)
+	// the jobs of the empty sequence come first; their early-read snapshots are the reference. The rest is run and judged
+	// in chunks: 50 000 results with their snapshots at once were 18 GB in the driver (thorough tier)
+	results := vlib.Pool("c02stab", nil, 4, jobs[:4])
 	// reference: the commit-time snapshot of the empty sequence read early
 	refs := map[bool]string{}
 	for i, r := range results {
@@ -335,49 +337,58 @@ func c02Stability(c *vlib.Ctx, states, transitions *int64) {
 		return
 	}
 	refused := map[string]int{}
-	for i, r := range results {
-		var j c02StabJob
-		json.Unmarshal([]byte(jobs[i]), &j)
-		if r.Died {
-			c.Violate("stability:worker-death", fmt.Sprintf("worker died on later history %v: %s", j.Ops, tail(r.Stderr, 1200)), map[string]interface{}{"ops": j.Ops})
-			continue
+	const chunk = 1500
+	for from := 0; from < len(jobs); from += chunk {
+		to := from + chunk
+		if to > len(jobs) {
+			to = len(jobs)
 		}
-		var res c02StabResult
-		if err := json.Unmarshal([]byte(r.Out), &res); err != nil {
-			continue
-		}
-		ref := refs[j.QuietLM]
-		*transitions += int64(res.Trans)
-		*states++
-		c.Eval(int64(res.Trans + 1))
-		if len(j.Ops) >= 1 {
-			c.Nontrivial(fmt.Sprintf("%v|%v|%v", j.Ops, j.ReadEarly, j.QuietLM))
-		}
-		if res.Fail != "" {
-			refused[strings.SplitN(res.Fail, ":", 2)[0]]++
-		}
-		if j.ReadEarly {
-			if res.Snap != ref && len(res.Bad) == 0 {
-				// different worlds must agree on the commit-time snapshot (content reads carry no uuids)
-				c.Violate("stability:commit-time-snapshot-differs", fmt.Sprintf("history %v: commit-time snapshot differs from the reference world's: %s", j.Ops, c02StabDiff(ref, res.Snap)), map[string]interface{}{"ops": j.Ops})
+		results := vlib.Pool("c02stab", nil, 16, jobs[from:to])
+		for ri, r := range results {
+			i := from + ri
+			var j c02StabJob
+			json.Unmarshal([]byte(jobs[i]), &j)
+			if r.Died {
+				c.Violate("stability:worker-death", fmt.Sprintf("worker died on later history %v: %s", j.Ops, tail(r.Stderr, 1200)), map[string]interface{}{"ops": j.Ops})
+				continue
 			}
-			for _, b := range res.Bad {
-				p := strings.SplitN(b, "\t", 2)
-				var idx int
-				fmt.Sscanf(p[0], "%d", &idx)
-				c.Violate("stability:changed-after:"+j.Ops[idx]+":"+c02DiffClass(p[1]), fmt.Sprintf("after later operations %v (the %d-th: %s) the committed version reads differently: %s", j.Ops, idx+1, j.Ops[idx], p[1]), map[string]interface{}{"ops": j.Ops, "read": "early"})
+			var res c02StabResult
+			if err := json.Unmarshal([]byte(r.Out), &res); err != nil {
+				continue
 			}
-			c.Outcome("early-stable")
-		} else {
-			if res.Late != ref {
-				last := "none"
-				if len(j.Ops) > 0 {
-					last = j.Ops[len(j.Ops)-1]
+			ref := refs[j.QuietLM]
+			*transitions += int64(res.Trans)
+			*states++
+			c.Eval(int64(res.Trans + 1))
+			if len(j.Ops) >= 1 {
+				c.Nontrivial(fmt.Sprintf("%v|%v|%v", j.Ops, j.ReadEarly, j.QuietLM))
+			}
+			if res.Fail != "" {
+				refused[strings.SplitN(res.Fail, ":", 2)[0]]++
+			}
+			if j.ReadEarly {
+				if res.Snap != ref && len(res.Bad) == 0 {
+					// different worlds must agree on the commit-time snapshot (content reads carry no uuids)
+					c.Violate("stability:commit-time-snapshot-differs", fmt.Sprintf("history %v: commit-time snapshot differs from the reference world's: %s", j.Ops, c02StabDiff(ref, res.Snap)), map[string]interface{}{"ops": j.Ops})
 				}
-				d := c02StabDiff(ref, res.Late)
-				c.Violate("stability:read-late-differs:"+last+":"+c02DiffClass(d), fmt.Sprintf("committed version first read only after later operations %v reads differently from its commit-time content: %s", j.Ops, d), map[string]interface{}{"ops": j.Ops, "read": "late", "quiet_lm": j.QuietLM})
+				for _, b := range res.Bad {
+					p := strings.SplitN(b, "\t", 2)
+					var idx int
+					fmt.Sscanf(p[0], "%d", &idx)
+					c.Violate("stability:changed-after:"+j.Ops[idx]+":"+c02DiffClass(p[1]), fmt.Sprintf("after later operations %v (the %d-th: %s) the committed version reads differently: %s", j.Ops, idx+1, j.Ops[idx], p[1]), map[string]interface{}{"ops": j.Ops, "read": "early"})
+				}
+				c.Outcome("early-stable")
+			} else {
+				if res.Late != ref {
+					last := "none"
+					if len(j.Ops) > 0 {
+						last = j.Ops[len(j.Ops)-1]
+					}
+					d := c02StabDiff(ref, res.Late)
+					c.Violate("stability:read-late-differs:"+last+":"+c02DiffClass(d), fmt.Sprintf("committed version first read only after later operations %v reads differently from its commit-time content: %s", j.Ops, d), map[string]interface{}{"ops": j.Ops, "read": "late", "quiet_lm": j.QuietLM})
+				}
+				c.Outcome("late-stable")
 			}
-			c.Outcome("late-stable")
 		}
 	}
 	c.Set("stability_sequences", len(seqs))
